@@ -27,7 +27,9 @@ try:
         os.makedirs(os.path.join(wt, mdir.group(1)), exist_ok=True)
         tests = []
     for t in tests:
-        m = re.search(r"cp\s+\S*%s\s+(\S+)" % re.escape(os.path.basename(t)), readme)
+        # (the destination is the last word of the cp line that names the file; a line may copy several files)
+        m = re.search(r"^\s*cp\s+[^\n]*%s[^\n]*?\s(\S+)\s*$" % re.escape(os.path.basename(t)), readme, re.M) or \
+            re.search(r"cp\s+\S*%s\s+(\S+)" % re.escape(os.path.basename(t)), readme)
         d = m.group(1) if m else None
         if d and d.endswith(".go"): d = os.path.dirname(d)
         if not d:
